@@ -25,7 +25,7 @@ ASSUMPTIONS = ['the byte stream is modelled in memory (fragment boundaries are e
                'deadlines are virtual seconds: connect_timeout + 2 x peer_timeout for the client, idle_timeout + transfer_timeout for the server',
                'an exception raised inside data_received closes the connection (asyncio semantics) and is not itself a violation',
                'a header followed by the complete correct bytes plus excess bytes IS a complete correct copy (the client caps at the announced length)']
-REQUIRED_HITS = ['X5.race_checked', 'X1.checked', 'X2.honest_transfer', 'X2.sequential_on_one_connection', 'X2.header_alone', 'X2.one_byte_fragments',
+REQUIRED_HITS = ['X5.pair_checked', 'X2.orphan_file_blob', 'X5.race_checked', 'X1.checked', 'X2.honest_transfer', 'X2.sequential_on_one_connection', 'X2.header_alone', 'X2.one_byte_fragments',
                  'X2.header_glued', 'X2.big_blob', 'X2.sd_blob', 'X3.client_liar_checked', 'X3.server_hostile_client_checked', 'X4.wire_checked',
                  'X4.not_held_request', 'X5.concurrent_honest_ok', 'X6.liar_then_honest', 'liar.wrong_hash', 'liar.wrong_length_unknown',
                  'liar.wrong_length_known', 'liar.flip', 'liar.short_stall', 'liar.short_close', 'liar.excess', 'liar.malformed_json',
@@ -38,6 +38,8 @@ _TMP = {}
 LIARS = ['wrong_hash', 'wrong_length_shorter', 'wrong_length_longer', 'wrong_length_zero', 'wrong_length_negative', 'wrong_length_huge',
          'wrong_length_string', 'flip', 'short_stall', 'short_close', 'excess', 'junk_before_header', 'malformed_json', 'huge_header',
          'unknown_keys', 'not_available', 'price', 'error_object', 'second_header', 'silent', 'close_immediately', 'header_only_then_close']
+PAIR_LIARS = ['flip', 'short_close', 'short_stall', 'wrong_hash', 'junk_before_header', 'malformed_json', 'not_available', 'price', 'error_object',
+              'second_header', 'silent', 'close_immediately', 'header_only_then_close', 'truthful_header_then_corrupt']
 HOSTILE_CLIENT = ['oversize', 'invalid_json', 'non_dict_json', 'no_request_keys', 'wrong_types', 'deep_nesting', 'unknown_hash', 'invalid_hash',
                   'disconnect_mid_transfer', 'slow_partial', 'garbage_binary', 'two_requests_glued']
 
@@ -64,8 +66,10 @@ def gen_cases(rng, tier, shard, nshards):
     ]
     fams.append([{'fam': 'race', 'seed': rng.getrandbits(48), 'liars': [LIARS[(i * 5 + shard + j) % len(LIARS)] for j in range(rng.choice([1, 2]))],
                   'known': i % 2 == 0} for i in range(30 if q else 500)])
+    fams.append([{'fam': 'pair', 'seed': rng.getrandbits(48), 'liar': PAIR_LIARS[(i + shard) % len(PAIR_LIARS)], 'liar_first': (i // 2) % 2 == 0,
+                  'known': i % 2 == 0} for i in range(28 if q else 500)])
     while any(fams):
-        for f, w in zip(fams, (1, 4, 1, 1)):
+        for f, w in zip(fams, (1, 4, 1, 1, 1)):
             for _ in range(w):
                 if f:
                     yield f.pop(0)
@@ -123,12 +127,17 @@ def sha384(b):
     return hashlib.sha384(b).hexdigest()
 
 
-async def make_manager(loop, base, name):
+async def make_manager(loop, base, name, preload=None):
+    """preload: {hash: bytes} written into the blob directory BEFORE the manager starts (a blob file the database does not know yet:
+    held verified and served, but not yet in the completed set the availability answer is computed from)"""
     from lbry.conf import Config
     from lbry.extras.daemon.storage import SQLiteStorage
     from lbry.blob.blob_manager import BlobManager
     d = os.path.join(base, name)
     os.makedirs(d)
+    for hh, content in (preload or {}).items():
+        with open(os.path.join(d, hh), 'wb') as f:
+            f.write(content)
     conf = Config(data_dir=d, download_dir=d, wallet=d, save_files=True, fixed_peers=[], tracker_servers=[])
     storage = SQLiteStorage(conf, os.path.join(d, 'lbrynet.sqlite'))
     bm = BlobManager(loop, d, storage, conf)
@@ -193,12 +202,20 @@ async def _honest(rec, case, loop):
     net = memnet.Net(loop)
     net.install()
     try:
-        sbm, sst, sdir = await make_manager(loop, base, 'server')
+        # blob files that are on the server's disk before it starts (unknown to its database in this session): served, but absent
+        # from the availability list - the client must still end with the blob (added after seeded break C10-D)
+        orphan = {}
+        for _ in range(r.choice([0, 0, 1, 2])):
+            oc = blob_content(r, r.choice(['small', 'mid', 'mid']))
+            orphan[sha384(oc)] = oc
+        sbm, sst, sdir = await make_manager(loop, base, 'server', preload=orphan)
         cbm, cst, cdir = await make_manager(loop, base, 'client')
         classes = ['tiny', 'small', 'mid', 'sd', 'jsonlike', 'braces', 'small'] + (['big'] if case['big'] else [])
         nblobs = r.randrange(1, 5)
-        held = {}
-        order = []
+        held = dict(orphan)
+        order = [(hh, 'orphan-file') for hh in orphan]
+        for hh in orphan:
+            rec.hit('X2.orphan_file_blob')
         for _ in range(nblobs):
             cls = r.choice(classes)
             c = blob_content(r, cls)
@@ -707,6 +724,79 @@ async def _race(rec, case, loop):
         shutil.rmtree(base, ignore_errors=True)
 
 
+# ------------------------------------------------------------------------------ arrangement (v): two concurrent requests for one blob object
+async def _pair(rec, case, loop):
+    """one liar and one honest server are asked for the same blob object at the same time by two plain request_blob calls (no downloader,
+    no retry): whatever the liar does and whoever answers first, the honest request itself must end with the verified blob - a failing
+    peer must not break a transfer that is under way from another peer (added after seeded break C10-C).  Liars that announce a wrong
+    length are excluded here: refusing the other peer's different length is the code's documented behaviour (see race family)."""
+    boot.import_lbry()
+    from lbry.blob_exchange.server import BlobServerProtocol
+    from lbry.blob_exchange.client import request_blob
+    r = random.Random(case['seed'])
+    kind = case['liar']
+    base = tempfile.mkdtemp(dir=_TMP['dir'])
+    net = memnet.Net(loop)
+    net.install()
+    try:
+        sbm, sst, sdir = await make_manager(loop, base, 'server')
+        cbm, cst, cdir = await make_manager(loop, base, 'client')
+        cls = r.choice(['small', 'mid', 'mid', 'sd'])
+        content = blob_content(r, cls)
+        other = blob_content(r, 'small')
+        h = await add_blob(sbm, content)
+        lkind = 'flip' if kind == 'truthful_header_then_corrupt' else kind
+        net.listen('5.8.0.66', 3333, lambda: Liar(loop, r, lkind, h, content, other))
+        net.listen('5.8.0.1', 3333, lambda: BlobServerProtocol(loop, sbm, 'bQEaw42GXsgCAGio1nxFncJSyRmnztSCjP', IDLE, XFER))
+        # fragment plans with small delays so that the two transfers really overlap; who answers first is seeded
+        liar_first = case['liar_first']
+        plans = {'liar': r.choice(['mtu', 'rand', 'first:200']), 'honest': r.choice(['mtu', 'rand', '64k'])}
+        made = []
+
+        def factory(direction):
+            # connections are created liar first, honest second (see below); each pipe gets its own plan and pace
+            who = 'liar' if len(made) < 2 else 'honest'
+            made.append(who)
+            base_p = make_plan(r, plans[who] if direction == 's2c' else 'all')
+            pace = (0.001 if liar_first else 0.004) if who == 'liar' else (0.004 if liar_first else 0.001)
+            return lambda avail: (base_p(avail)[0], pace)
+        net.plan_factory = factory
+        blob = cbm.get_blob(h, len(content) if case['known'] else None)
+        t_liar = loop.create_task(request_blob(loop, blob, '5.8.0.66', 3333, CT, PT))
+        await asyncio.sleep(0)
+        t_honest = loop.create_task(request_blob(loop, blob, '5.8.0.1', 3333, CT, PT))
+        res = await asyncio.gather(t_liar, t_honest, return_exceptions=True)
+        rec.hit('X5.pair_checked')
+        rec.hit('pair.' + kind)
+        for _ in range(10):
+            await asyncio.sleep(0)
+        await asyncio.sleep(0.01)
+        ok = blob.get_is_verified()
+        honest_res = res[1]
+        if ok:
+            with open(os.path.join(cdir, h), 'rb') as f:
+                if f.read() != content:
+                    rec.violation(f'C10/X1/verified-blob-bytes-differ/pair/{kind}', 'verified with wrong bytes', {'liar': kind})
+        else:
+            rec.violation(f'C10/X5/concurrent-liar-broke-the-honest-transfer/{kind}',
+                          f'liar ({kind}, answering {"first" if liar_first else "second"}) and an honest server were asked for the same {cls} blob '
+                          f'({len(content)} bytes, client knew length: {case["known"]}) at the same time; the honest request ended {honest_res!r} and the '
+                          f'blob is not verified', {'liar': kind, 'liar_first': liar_first, 'known': case['known'], 'honest_result': repr(honest_res),
+                                                    'liar_result': repr(res[0]), 'blob_length': blob.length,
+                                                    'data_received_exceptions': net.data_received_exceptions[:3]})
+        for x in res:
+            if isinstance(x, tuple) and x[1]:
+                x[1].close()
+        rec.case(['pair', kind, cls, case['known'], liar_first, plans['liar'], plans['honest']],
+                 sample={'arrangement': 'pair', 'liar': kind, 'liar_first': liar_first, 'blob': cls, 'length': len(content), 'verified': ok})
+        sbm.stop()
+        cbm.stop()
+        await sst.close()
+        await cst.close()
+    finally:
+        shutil.rmtree(base, ignore_errors=True)
+
+
 def execute(rec, case):
-    fam = {'honest': _honest, 'liar': _liar, 'hostile_client': _hostile_client, 'race': _race}[case['fam']]
+    fam = {'honest': _honest, 'liar': _liar, 'hostile_client': _hostile_client, 'race': _race, 'pair': _pair}[case['fam']]
     vclock.run(lambda loop: fam(rec, case, loop), wall_timeout=300)
